@@ -8,7 +8,7 @@ from mindsdb_sql.planner import utils
 from mindsdb_sql.planner.steps import (JoinStep, LimitOffsetStep, MultipleSteps, MapReduceStep,
                                        ApplyTimeseriesPredictorStep)
 from mindsdb_sql.planner.ts_utils import validate_ts_where_condition, find_time_filter, replace_time_filter, \
-    find_and_remove_time_filter, recursively_check_join_identifiers_for_ambiguity
+    find_and_remove_time_filter, recursively_check_join_identifiers_for_ambiguity, check_time_column_usage
 from mindsdb_sql.planner.utils import (query_traversal, )
 
 
@@ -231,6 +231,9 @@ class PlanJoinTSPredictorQuery:
             # 'value < column': put the column first, the conditions below are read as 'column > value'
             time_filter.args = [time_filter.args[1], time_filter.args[0]]
             time_filter.op = {'>': '<', '>=': '<=', '<': '>', '<=': '>=', '=': '='}[time_filter.op]
+
+        # the order column anywhere else than `column <op> value` is not planned as a time filter: not supported
+        check_time_column_usage(preparation_where, time_filter, predictor_time_column_name)
 
         order_by = [OrderBy(Identifier(parts=[predictor_time_column_name]), direction='DESC')]
 
